@@ -609,4 +609,14 @@ theorem list_ext_getD (l l' : List Label) (hl : l.length = l'.length)
   have := h i h1
   simpa [List.getD_eq_getElem?_getD, h1, h2] using this
 
+
+theorem xor_cancel_right (p q u : Label) (h : p ^^^ u = q ^^^ u) : p = q := by
+  have := congrArg (· ^^^ u) h
+  simpa [BitVec.xor_assoc] using this
+
+theorem xor_err_zero (u e : Label) (h : u = u ^^^ e) : e = 0#128 := by
+  have := congrArg (u ^^^ ·) h
+  simp only [← BitVec.xor_assoc, BitVec.xor_self, BitVec.zero_xor] at this
+  exact this.symm
+
 end Mpc.Kos
